@@ -7,19 +7,19 @@ EXTENDS BufferModel, TraceBase
 Pre(e)    == [cap |-> e.cap, pos |-> e.pos]
 CallOf(e) == Call(e.m, e.a, e.b, e.n, e.lead)
 InAlphabet(e) ==
-  /\ e.m \in Methods /\ e.cap >= 0 /\ e.pos \in 0..e.cap /\ e.n >= 0 /\ e.lead \in 0..3
-  /\ e.m = "push_uint_var" => VarArgOk(e.a)
+  \/ e.m = "new"
+  \/ /\ e.m \in Methods /\ e.cap >= 0 /\ e.pos \in 0..e.cap /\ e.n >= 0 /\ e.lead \in 0..3
+     /\ e.m = "push_uint_var" => VarArgOk(e.a)
 
 (* statement clauses first: no report, no crash; an accepted call touches only
    [0, cap) and leaves pos in 0..cap; a rejected call leaves the buffer usable
-   with pos in range.  "model:" clauses (which exception, exact pos', return
-   value, pos unchanged on rejection) are drift. *)
-Clauses(e) ==
+   with pos in range; a negative capacity is not accepted.  "model:" clauses
+   (which exception, exact pos', return value, pos unchanged on rejection) are
+   drift. *)
+MethodClauses(e) ==
   LET s == Pre(e)  res == MethodF(s, CallOf(e)) IN
   << <<"harness-guard", InAlphabet(e)>>,
-     <<"out-of-bounds-accepted", ~(e.died = 0 /\ e.out.kind = "ok" /\ ~(\A r \in MethodF(s, CallOf(e)).acc : RangeOk(r, s.cap))
-                                  /\ ~(e.died = 0 /\ e.out.kind = "ok" /\ res.out.kind # "ok"
-                                       /\ e.m \notin {"tell", "eof", "capacity", "data"})>>,
+     <<"out-of-bounds-accepted", ~(e.died = 0 /\ e.out.kind = "ok" /\ res.out.kind \in {Rd, Wr})>>,
      <<"sanitizer", e.san = "">>,
      <<"crash", e.died = 0>>,
      <<"pos-out-of-range", e.pos2 \in 0..e.cap /\ e.cap2 = e.cap>>,
@@ -28,6 +28,17 @@ Clauses(e) ==
      <<"model:pos", e.pos2 = res.st.pos>>,
      <<"model:return", e.out.kind = "ok" /\ res.out.kind = "ok" => e.out.ret = res.out.ret>>,
      <<"model:step", StepOk(s, res)>> >>
+
+NewClauses(e) ==
+  << <<"negative-capacity-accepted", ~(e.died = 0 /\ e.out.kind = "ok" /\ FitsSsize(e.a) /\ Neg(e.a))>>,
+     <<"sanitizer", e.san = "">>,
+     <<"crash", e.died = 0>>,
+     <<"unusable", e.usable # 0>>,
+     <<"pos-out-of-range", e.out.kind = "ok" => e.pos2 = 0 /\ e.cap2 >= 0>>,
+     <<"model:outcome", e.out.kind \in NewOutcomes(e.a)>>,
+     <<"model:capacity", e.out.kind = "ok" /\ IsSmall(e.a) => e.cap2 = Val(e.a)>> >>
+
+Clauses(e) == IF e.m = "new" THEN NewClauses(e) ELSE MethodClauses(e)
 
 TInit == l = 1 /\ s = [cap |-> 0, pos |-> 0] /\ depth = 0 /\ last = "init"
 TNext == Judge(Clauses) /\ UNCHANGED vars
